@@ -56,7 +56,12 @@ type metricsSnapshot struct {
 	floats map[string]float64 // "name|average"
 }
 
+// c18Scrapes counts the scrapes made in this process: every scrape swaps the two ring
+// buffers of every histogram.
+var c18Scrapes int
+
 func readMetrics() metricsSnapshot {
+	c18Scrapes++
 	rec := httptest.NewRecorder()
 	req := httptest.NewRequest("GET", "/metrics", nil)
 	http.DefaultServeMux.ServeHTTP(rec, req)
@@ -189,8 +194,34 @@ func execC18(t *testing.T, p Plan, src kernel.Source) Result {
 				res.V = &Violation{Prop: "C18", Rule: rule, Class: rule + ":" + class, Msg: fmt.Sprintf(format, a...)}
 			}
 		}
+		// The histogram is process-global state that outlives a run: which of its two ring
+		// buffers is the live one, and what earlier runs left in them. Correct code never
+		// reads the leftovers, broken code may - and a violation that depends on what earlier
+		// runs of this worker did would not replay in a fresh process. So which buffer is
+		// live when the run starts is part of the plan, and the runs that fill a whole buffer
+		// first overwrite both buffers with zeros. (A scrape costs ~10 ms - it prints some
+		// 15 000 lines - so the scrubbing is not done in every run.)
+		if p.X["prefill"] > 0 {
+			for round := 0; round < 2; round++ {
+				for i := 0; i < 32768; i++ {
+					metrics.ObserveHist(m.hist[hi], 0)
+				}
+				readMetrics()
+			}
+		}
+		if int64(c18Scrapes+1)%2 != p.X["parity"] {
+			readMetrics()
+		}
 		// start a fresh period and take the counters' baseline (unmanaged: no run flags yet)
 		base := readMetrics()
+		// optional prefill: the first period already holds about one ring buffer of large
+		// observations when the tasks start (buffer boundaries meet interleavings)
+		var prefill []uint64
+		for i := int64(0); i < p.X["prefill"]; i++ {
+			v := uint64(1000000 + i)
+			prefill = append(prefill, v)
+			metrics.ObserveHist(m.hist[hi], v)
+		}
 		w.Run.ManagePkgs = []string{"/metrics"}
 		// half of the runs interleave at atomic-operation granularity, the other half only
 		// at lock granularity (an observation is then two scheduling points, which makes
@@ -344,7 +375,7 @@ func execC18(t *testing.T, p Plan, src kernel.Source) Result {
 		}
 		// a period ends when a scrape takes the histogram's write lock; the scrape that took
 		// it is the one that must report the period
-		periods := [][]uint64{{}}
+		periods := [][]uint64{append([]uint64{}, prefill...)}
 		var snaps []metricsSnapshot
 		readIdx := map[string]int{}
 		seen := map[string]int{}
@@ -370,6 +401,10 @@ func execC18(t *testing.T, p Plan, src kernel.Source) Result {
 				readIdx[e.Who]++
 				periods = append(periods, []uint64{})
 			}
+		}
+		if histLock == "" && len(prefill) > 0 {
+			res.Infra = "period bookkeeping: prefilled run without observer"
+			return
 		}
 		if histLock == "" {
 			// no observation was made: every read reports an empty period
@@ -581,6 +616,12 @@ func genC18(seed uint64, tier string) Plan {
 		}
 		p.X["reads"] = int64(g.n(4))
 		p.X["coarse"] = int64(g.n(2))
+		p.X["parity"] = int64(g.n(2))
+		if g.p(1, 6) {
+			// the first period starts with a ring buffer's worth of observations
+			p.X["prefill"] = int64(pick(g, []int{32767, 32768, 32768, 32769, 40000}))
+			p.X["reads"] = int64(2 + g.n(2))
+		}
 		if g.p(1, 3) {
 			// two collectors scraping at once
 			p.X["readers"] = 2
@@ -594,10 +635,10 @@ func init() {
 	register(&Prop{
 		ID: "C18", Gen: genC18, Exec: execC18,
 		Nontrivial: func(p Plan, r Result) bool { return true },
-		Rule:       "70% interleave runs: 1-4 observer tasks (1-4 observations each: small values, powers of two and neighbours, 2^63-1, random magnitudes; each followed by IncCounterBy(value) and IncCounter) and one reader task (two in a third of the runs, i.e. overlapping scrapes) calling the real /metrics handler 0-3 times; every atomic operation of an observer and every lock operation of package metrics parks and is released by the kernel, so observers and the reader interleave at atomic-operation and lock granularity. Periods are reconstructed from the lock log (an observation belongs to the read - of whichever reader - that next takes the histogram's write lock). Per read: count = observations of the period, kept consistent, average, min and max equal, every percentile within [min,max] and one of the period's observations; counters equal the sum / number of increments. 20% bulk runs (no yields): 1..40 or {1,2,3,32767,32768,32769} (thorough also 65536, 65537, 100000) observations per period, several periods, three value distributions. 10% supplementary pure-input sweep (not simulation): bucket index read back through the bhist_* counters is non-decreasing in the value and its upper bound, from a table regenerated from the published Spectator algorithm, is >= the value. Not claimed: asm vs portable bit count; literal data-race freedom. Distinct = distinct plan hash",
+		Rule:       "70% interleave runs: 1-4 observer tasks (1-4 observations each: small values, powers of two and neighbours, 2^63-1, random magnitudes; each followed by IncCounterBy(value) and IncCounter) and one reader task (two in a third of the runs, i.e. overlapping scrapes) calling the real /metrics handler 0-3 times; every atomic operation of an observer and every lock operation of package metrics parks and is released by the kernel, so observers and the reader interleave at atomic-operation and lock granularity. In a sixth of the interleave runs the first period is prefilled with 32767-40000 large observations (the ring buffer's size and its neighbours) before the tasks start. Periods are reconstructed from the lock log (an observation belongs to the read - of whichever reader - that next takes the histogram's write lock). Per read: count = observations of the period, kept consistent, average, min and max equal, every percentile within [min,max] and one of the period's observations; counters equal the sum / number of increments. 20% bulk runs (no yields): 1..40 or {1,2,3,32767,32768,32769} (thorough also 65536, 65537, 100000) observations per period, several periods, three value distributions. 10% supplementary pure-input sweep (not simulation): bucket index read back through the bhist_* counters is non-decreasing in the value and its upper bound, from a table regenerated from the published Spectator algorithm, is >= the value. Not claimed: asm vs portable bit count; literal data-race freedom. Distinct = distinct plan hash",
 		Real:       []string{"metrics (counters, histograms, bucket histograms, /metrics endpoint via http.DefaultServeMux)"},
 		Stub:       []string{"sync/atomic and sync.RWMutex of package metrics (yield points owned by the kernel)", "observer and reader tasks", "HTTP transport (httptest.ResponseRecorder)"},
 		RaceTest:   "TestRaceMetrics",
-		RunsQuick:  2500, RunsThorough: 25000, Chunk: 300,
+		RunsQuick:  1800, RunsThorough: 18000, Chunk: 300,
 	})
 }
